@@ -388,7 +388,7 @@ Section Run.
       cbn [vsconcatR sconcatR res_bind]. fold (vsconcat o).
       eapply agree_trans; [exact Ha|].
       apply agree_bind; [apply agree_refl|]. intros x _.
-      cbn [mapM]. destruct (run_value p x); simpl; auto.
+      unfold fv. cbn [mapM]. destruct (run_value p x); simpl; auto.
     - (* several: merged *)
       set (os := o :: o' :: os') in *.
       assert (Hl2 : 2 <= List.length os) by (simpl; lia).
